@@ -44,6 +44,9 @@ def compare(lab, r, where):
 def check(case, ctx):
     spec = specgen.normalise(case["spec"], ctx.flags, ctx)
     ref = Ref(spec)
+    if specgen.k6_excluded(ctx, ref, case["options"], single_evaluation=True):
+        ctx.done(case, False, ["excluded-K6"])
+        return
     labels = set()
     branchy = False
     for o in case["options"]:
